@@ -11,7 +11,7 @@ def expectedC14 : List (String × String) := [
   ("file:comparison.py", "c46d05a1308c92ce"),
   ("file:config.py", "142bde514c82c29d"),
   ("file:io/base.py", "e2315106bbcaaf95"),
-  ("file:io/json.py", "9a87ae69473e052e"),
+  ("file:io/json.py", "5e1ef8b67f567a77"),
   ("file:transform/regex.py", "6f7519d83abfcff1"),
   ("file:transform/reshape.py", "e9dad8513b846f8e"),
   ("file:transform/sorts.py", "137f7e8a70e043fe"),
@@ -19,7 +19,7 @@ def expectedC14 : List (String × String) := [
   ("file:util/base.py", "771a68108eeb730d"),
   ("file:util/materialise.py", "66208e10041a09c8"),
   ("io.json.DictsView", "0730cd8e741c1a29"),
-  ("io.json.iterdicts", "5c0c00d58ed17245"),
+  ("io.json.iterdicts", "0c25092df070e5c5"),
   ("transform.regex.itercapture", "0644195b669301b0"),
   ("transform.regex.itersplit", "03ea6b898ba44dc6"),
   ("transform.regex.itersplitdown", "3daabc31aa75deb4"),
